@@ -222,20 +222,20 @@ fn parse_id(id: &str) -> Option<(String, bool, u64, usize, u64, bool)> {
 
 fn write_case(imp: &str, rt: &tokio::runtime::Runtime, compressed: bool, packets: &[Packet]) -> (Vec<Vec<u8>>, Vec<Vec<u8>>) {
     let (a, b) = pair();
-    let mut want = vec![];
+    b.set_nonblocking(true).unwrap();
+    let mut want = vec![]; let mut got = vec![]; let mut rb = [0u8; 4096];
+    // the peer is drained after every few writes so that the loopback socket buffer never overflows
+    let mut drain = |got: &mut Vec<Vec<u8>>, wait: bool| { if wait { std::thread::sleep(Duration::from_millis(1)); } while let Ok(n) = b.recv(&mut rb) { got.push(rb[..n].to_vec()); } };
     if imp == "B" {
         let mut f = BFramed::new(Box::new(BUdp::from(a)), Codec::new(mode_of(compressed)));
-        for p in packets { if let Some(fr) = encode(compressed, p) { if let Some(Ok(())) = guard(|| f.write(p.clone())) { want.push(fr); } } }
+        for (i, p) in packets.iter().enumerate() { if let Some(fr) = encode(compressed, p) { if let Some(Ok(())) = guard(|| f.write(p.clone())) { want.push(fr); } } if i % 16 == 15 { drain(&mut got, false); } }
     } else {
         a.set_nonblocking(true).unwrap();
         let _g = rt.enter();
         let mut f = AFramed::new(Box::new(AUdp::from(tokio::net::UdpSocket::from_std(a).unwrap())), Codec::new(mode_of(compressed)));
-        for p in packets { if let Some(fr) = encode(compressed, p) { if let Some(Ok(())) = guard(|| rt.block_on(async { f.write(p.clone()).await })) { want.push(fr); } } }
+        for (i, p) in packets.iter().enumerate() { if let Some(fr) = encode(compressed, p) { if let Some(Ok(())) = guard(|| rt.block_on(async { f.write(p.clone()).await })) { want.push(fr); } } if i % 16 == 15 { drain(&mut got, false); } }
     }
-    b.set_nonblocking(true).unwrap();
-    std::thread::sleep(Duration::from_millis(1));
-    let mut got = vec![]; let mut rb = [0u8; 4096];
-    while let Ok(n) = b.recv(&mut rb) { got.push(rb[..n].to_vec()); }
+    drain(&mut got, true);
     (got, want)
 }
 
@@ -313,7 +313,17 @@ pub fn run(a: &Args) {
     }
     // (c) writes
     for compressed in [true, false] {
-        let packets: Vec<Packet> = crate::gen::kinds::default_packets();
+        let mut packets: Vec<Packet> = crate::gen::kinds::default_packets();
+        // variable-length kinds at every size class up to the largest frame the mode can announce (1020 / 252 bytes)
+        let mut sizes_seen = std::collections::BTreeSet::new();
+        for d in crate::gen::kinds::default_packets() {
+            for k in (0..=255usize).rev() {
+                let mut p = d.clone();
+                if !crate::gen::glue::vec_resize(&mut p, k) { break; }
+                if let Some(fr) = encode(compressed, &p) { if sizes_seen.insert(fr.len()) || k % 50 == 1 { packets.push(p); } }
+            }
+        }
+        st.notes.push(format!("written frame sizes ({} mode): {} distinct, max {} bytes", mode_tag(compressed), sizes_seen.len(), sizes_seen.iter().max().copied().unwrap_or(0)));
         for imp in ["B", "A"] {
             let (got, want) = write_case(imp, &rt, compressed, &packets);
             st.evaluations += want.len() as u64;
